@@ -158,6 +158,9 @@ FOREIGN_DATATYPES = [
     (XSD_URI, "hexBinary"),
     ("http://ex.org/a/", "T"),
     ("http://other.org/ns#", "dt"),
+    ("http://ex.org/a/", "dt"),
+    ("http://other.org/ns#", "T"),
+    ("http://ex.org/c#", "T"),
 ]
 # natively supported datatypes with valid lexical forms and the Python value they denote
 NATIVE_LITERALS = [
